@@ -136,7 +136,9 @@ class Tripwire:
 
 
 class Recorder:
-    def __init__(self, path, n_hosts):
+    def __init__(self, path, n_hosts, cs=None):
+        self.cs = cs             # canonical scenario (harness.export): lets flat indices be translated, see _perm
+        self.inv = {}            # env id -> {specification index - 1: implementation index}
         self.f = open(path, "w")
         self.i = 0
         self.nh = n_hosts
@@ -186,9 +188,41 @@ class Recorder:
         rec.update(explicit=explicit, same=same, aux=rows_of(o2[self.nh])[0])
         return rec
 
-    def action_arg(self, env, spec):
-        """spec: (enc, payload) -> (argument passed to the implementation, logged description)"""
+    def _perm(self, eid, env):
+        """C11 does not fix the order of the flat action list.  If the implementation's list is a rearrangement of the
+        specification's (matched by kind, name, target - input decoding only; the monitor verifies the proposal
+        against the full action records), return perm[i] = specification index (1-based) of the i-th action and
+        remember the inverse for the drivers; None when the order is the specification's (the pinned tree)."""
+        if self.cs is None:
+            return None
+        from harness import pyref
+        try:
+            n = pyref.n_actions(self.cs)
+            acts = list(env.action_space.actions)
+            if len(acts) != n:
+                return None
+            want = {}
+            for k in range(1, n + 1):
+                a = pyref.flat_action(self.cs, k)
+                want[(a["kind"], a["name"], tuple(a["target"]))] = k
+            perm = []
+            for a in acts:
+                pa = project_action(a)
+                perm.append(want.get((pa["kind"], pa["name"], tuple(pa["target"])), 0))
+        except Exception:      # noqa
+            return None
+        if perm == list(range(1, n + 1)):
+            return None
+        if sorted(perm) == list(range(1, n + 1)):
+            self.inv[eid] = {k - 1: i for i, k in enumerate(perm)}
+        return perm
+
+    def action_arg(self, env, spec, eid=None):
+        """spec: (enc, payload) -> (argument passed to the implementation, logged description); a flat index is given
+        in the specification's order and translated to the implementation's"""
         enc, p = spec
+        if enc in ("int", "npint", "np0d") and eid in self.inv:
+            p = self.inv[eid].get(int(p), int(p))
         if enc == "int":
             return int(p), dict(enc=enc, idx=int(p))
         if enc == "npint":
@@ -234,16 +268,22 @@ class Recorder:
                                       step_limit=-1 if d_["Step Limit"] is None else int(d_["Step Limit"]))
         except Exception as ex:      # noqa
             adv["description"] = dict(raised=type(ex).__name__)
+        perm = self._perm(eid, env)
+        if perm is not None:
+            adv["perm"] = perm
         if flat_actions:
             adv["space_n"] = int(env.action_space.n)
         else:
             adv["nvec"] = [int(x) for x in env.action_space.nvec]
         self.last_post[eid] = t.copy()
-        return self.emit(dict(ev="create", env=eid,
-                              modes=dict(fo=bool(fully_obs), fa=bool(flat_actions), f1=bool(flat_obs)),
-                              adv=adv, tensor=rows_of(t), tdtype=str(t.dtype),
-                              obs=self.obs_record(env, obs, t),
-                              entropy=list(self.trip.others), ndraw=len(self.trip.draws)))
+        ev = self.emit(dict(ev="create", env=eid,
+                            modes=dict(fo=bool(fully_obs), fa=bool(flat_actions), f1=bool(flat_obs)),
+                            adv=adv, tensor=rows_of(t), tdtype=str(t.dtype),
+                            obs=self.obs_record(env, obs, t),
+                            entropy=list(self.trip.others), ndraw=len(self.trip.draws)))
+        if perm is not None:
+            self.actions(eid)        # a proposed rearrangement is always verified against the full records
+        return ev
 
     def raised(self, eid, what, exc, prop, clause, extra=None):
         ev = dict(ev="raised", env=eid, what=what, exc=type(exc).__name__, msg=str(exc)[:200],
@@ -286,7 +326,7 @@ class Recorder:
                     newly=addrs(info["newly_discovered"]))
 
     def step(self, eid, spec, u, grp=None):
-        arg, adesc = self.action_arg(self.envs[eid], spec)
+        arg, adesc = self.action_arg(self.envs[eid], spec, eid)
         return self.step_raw(eid, arg, adesc, u, grp)
 
     def step_raw(self, eid, arg, adesc, u, grp=None):
@@ -342,7 +382,7 @@ class Recorder:
     def genstep(self, eid, state, spec, u, grp=None):
         """state: an implementation State object (e.g. one returned earlier), or None = env.current_state"""
         env = self.envs[eid]
-        arg, adesc = self.action_arg(env, spec)
+        arg, adesc = self.action_arg(env, spec, eid)
         act_copy = arg.copy() if isinstance(arg, np.ndarray) else None
         held_same = None
         if state is not None and id(state) in self.held:
